@@ -213,7 +213,8 @@ func drawName(t *rapid.T, b FrameBounds, i int, used map[string]bool) string {
 			}
 		}
 		if b.LongNames && rapid.IntRange(0, 2).Draw(t, "longname") != 0 {
-			name += "_" + strings.Repeat("long", []int{8, 20, 60}[rapid.IntRange(0, 2).Draw(t, "namelen")])
+			// (with a few drawn characters: over the life of a process many different names)
+			name += "_" + strconv.FormatUint(uint64(rapid.Uint16().Draw(t, "nametag")), 36) + strings.Repeat("long", []int{8, 20, 60}[rapid.IntRange(0, 2).Draw(t, "namelen")])
 		}
 		if validName(name) && !used[name] && !strings.HasPrefix(name, "__") {
 			used[name] = true
